@@ -281,6 +281,28 @@ def run_case(case):
                          "queue grew by %d for one valid packet" % grew)
             if bool(av) != bool(rx.rx_queue):
                 res.fail("C19/available-return", "available() = %r with %d queued elements" % (av, len(rx.rx_queue)))
+            if case.get("rx_advertises") and kind != "rt" and rx.rx_queue:
+                # a node that scans AND advertises: with elements waiting in its queue (and one more, undecodable, payload in
+                # its radio) it sends an advertisement of its own and goes back to listening - the queue is untouched
+                noise = bytes((37 * i + 11 * len(rx.rx_queue)) & 0xFF for i in range(32))
+                if ble.parse_radio_payload(noise, blech).get("crc_ok"):
+                    noise = bytes(32)
+                x.w(7, 0x70)
+                x.x(0xE1)
+                x.x(0xA0, *noise)
+                x.ce(True)
+                sim.advance(2 * MS)
+                x.ce(False)
+                nq = len(rx.rx_queue)
+                rx.listen = False
+                rx.advertise(b"\x07", 0xFF)
+                rx.listen = True
+                sim.advance(1 * MS)
+                res.label("scanner-advertises-with-elements-queued")
+                if len(rx.rx_queue) != nq:
+                    res.fail("C19/queued-element-lost-by-advertise", "the queue held %d element(s) before the node's own advertise(), %d after" % (
+                        nq, len(rx.rx_queue)))
+                    return res
             if idle.available() or idle.rx_queue:
                 res.fail("C19/element-on-a-radio-that-received-nothing", "a second FakeBLE object on another radio reports %d queued element(s)" % len(idle.rx_queue))
                 return res
@@ -427,8 +449,20 @@ def seed_inputs():
     return out
 
 
+def _scanner_also_advertises(src):
+    """the same strategy with the flag `rx_advertises` drawn for every case"""
+    def source():
+        from hypothesis import strategies as st
+        return src().flatmap(lambda c: st.sampled_from([False, False, True]).map(lambda b: dict(c, rx_advertises=True) if b else c))
+    return source
+
+
 def parts(tier):
     q = tier == "quick"
+    return [_p if _p.kind != "gen" or _p.name == "roundtrip" else Part(_p.name, "gen", _scanner_also_advertises(_p.source), n=_p.n) for _p in _parts(q)]
+
+
+def _parts(q):
     return [
         Part("roundtrip", "gen", _rt_strategy, n=1500 if q else 60000),
         Part("independent-encoder", "gen", _enc_strategy, n=1500 if q else 60000),
